@@ -77,8 +77,6 @@ def _z(v):
 def _zb(v):
     if isinstance(v, SBool):
         return v.e
-    if isinstance(v, ForallGoal):
-        return _zb(v.universal())
     if isinstance(v, bool):
         return z3.BoolVal(v)
     if isinstance(v, (SInt, int)):
@@ -704,21 +702,6 @@ def forall(lo, hi, fn):
         # in-range index: they are asserted on their own, not made part of the formula (which may be a goal)
         st.assume(z3.ForAll([j], z3.Implies(rng, z3.And(*facts))))
     return mk_bool(z3.ForAll([j], z3.Implies(rng, b)))
-
-
-class ForallGoal(Sym):
-    """A clause `for all integers j with lo <= j < hi: body(j)` that is *proved* by universal generalisation:
-    `State.oblige` introduces a fresh, otherwise unconstrained integer j0, lets `hints(j0)` add ground instances
-    (at j0) of universally quantified facts that are already part of the path condition, checks
-    `lo <= j0 < hi => body(j0)` and then assumes the quantified clause.  Wherever the clause is only *assumed*
-    (loop invariant after the havoc, callee postcondition) it is the plain quantified formula.  This keeps the
-    solver's work ground (DESIGN 3.7) for clauses whose proof needs instances the E-matcher does not find."""
-
-    def __init__(self, lo, hi, body, hints=None):
-        self.lo, self.hi, self.body, self.hints = lo, hi, body, hints
-
-    def universal(self):
-        return forall(self.lo, self.hi, self.body)
 
 
 def opt_isnone(x):
